@@ -14,6 +14,7 @@
 import SpectraVerif.Proofs.OrchLemmas
 import SpectraVerif.Gen.Status
 import SpectraVerif.Gen.Restart
+import SpectraVerif.Proofs.AccessLemmas
 
 namespace C05
 open Orch
@@ -300,6 +301,97 @@ theorem c05_nmatop_monotone (sel : Int) (maxit : Nat) (tol : τ) (sorting : Int)
         split
         · rename_i s4 e hs; rw [hs] at hsf; dsimp only at hsf ⊢; omega
         · rename_i s4 hs; rw [hs] at hsf; dsimp only at hsf ⊢; omega
+
+/-! ### The accessor loops as the source has them (`Gen.Access`, regenerated from /repo on every run) -/
+
+section access
+open AccessLemmas
+
+/-- the model's list of flagged indices is the index list the source loops walk -/
+theorem convIdx_eq_idx (s : St φ ρ ε κ) :
+    convIdx c s = idx (fun i => s.ritzConv.getD i.toNat false) c.nev := by
+  simp [convIdx, idx]
+
+/--
+  **`eigenvalues()` as written in `HermEigsBase.h`** (loop translated from the source): for every object state, the output
+  positions `0 .. j-1` of the translated loop, read back, are exactly the model's `eigenvalues` list (the values at the flagged
+  indices among the first `nev`, in increasing index order), `j` is its length, and no position `≥ j` is written.  With
+  `c05_counts` this ties "returned count = eigenvalues().size()" to the loop the source contains, not only to the model's
+  `filter`/`map`. -/
+theorem c05_eigenvalues_loop_from_source {α : Type} [Add α] [Sub α] [Mul α] [Div α] [Neg α] [Sc α]
+    {φ ε κ β τ ω : Type} (K : Kern φ α ε κ β τ ω) (c : Cfg) (s : St φ α ε κ) (res0 : Int → α) :
+    let r := Gen.Access.hermEigenvalues_loop (c.nev : Int) (fun i => s.ritzConv.getD i.toNat false)
+                (fun i => s.ritzVal.getD i.toNat K.zeroρ) res0
+    r.1 = ((convIdx c s).length : Int) ∧
+    (convIdx c s).map (fun i => s.ritzVal.getD i K.zeroρ) = (List.range (convIdx c s).length).map (fun (t : Nat) => r.2 (t : Int)) ∧
+    (∀ x : Int, ¬ (0 ≤ x ∧ x < ((convIdx c s).length : Int)) → r.2 x = res0 x) := by
+  intro r
+  have hr : r = _ := hermEigenvalues_loop_eq c.nev _ _ res0
+  rw [intRange_zero] at hr
+  have sp := valFold_spec (fun i => s.ritzConv.getD i.toNat false) (fun i => s.ritzVal.getD i.toNat K.zeroρ) res0 c.nev
+  dsimp only at sp
+  rw [← convIdx_eq_idx] at sp
+  obtain ⟨sj, sr⟩ := sp
+  refine ⟨by rw [hr]; exact sj, ?_, ?_⟩
+  · have := readback (convIdx c s) (fun i => s.ritzVal.getD i K.zeroρ) r.2 (convIdx c s).length (Nat.le_refl _)
+      (by intro x hx; rw [hr]; dsimp only; rw [sr x, if_pos hx]; simp)
+    rw [List.take_length] at this
+    exact this
+  · intro x hx; rw [hr]; dsimp only; rw [sr x, if_neg hx]
+
+/-- the same for `GenEigsBase::eigenvalues()` (complex Ritz values as pairs) -/
+theorem c05_eigenvalues_loop_from_source_gen {α : Type} [Add α] [Sub α] [Mul α] [Div α] [Neg α] [Sc α]
+    {φ ε κ β τ ω : Type} (K : Kern φ (α × α) ε κ β τ ω) (c : Cfg) (s : St φ (α × α) ε κ) (res0 : Int → α × α) :
+    let r := Gen.Access.genEigenvalues_loop (c.nev : Int) (fun i => s.ritzConv.getD i.toNat false)
+                (fun i => s.ritzVal.getD i.toNat K.zeroρ) res0
+    r.1 = ((convIdx c s).length : Int) ∧
+    (convIdx c s).map (fun i => s.ritzVal.getD i K.zeroρ) = (List.range (convIdx c s).length).map (fun (t : Nat) => r.2 (t : Int)) ∧
+    (∀ x : Int, ¬ (0 ≤ x ∧ x < ((convIdx c s).length : Int)) → r.2 x = res0 x) := by
+  intro r
+  have hr : r = _ := genEigenvalues_loop_eq c.nev _ _ res0
+  rw [intRange_zero] at hr
+  have sp := valFold_spec (fun i => s.ritzConv.getD i.toNat false) (fun i => s.ritzVal.getD i.toNat K.zeroρ) res0 c.nev
+  dsimp only at sp
+  rw [← convIdx_eq_idx] at sp
+  obtain ⟨sj, sr⟩ := sp
+  refine ⟨by rw [hr]; exact sj, ?_, ?_⟩
+  · have := readback (convIdx c s) (fun i => s.ritzVal.getD i K.zeroρ) r.2 (convIdx c s).length (Nat.le_refl _)
+      (by intro x hx; rw [hr]; dsimp only; rw [sr x, if_pos hx]; simp)
+    rw [List.take_length] at this
+    exact this
+  · intro x hx; rw [hr]; dsimp only; rw [sr x, if_neg hx]
+
+/--
+  **`eigenvectors(nvec)` as written in both base classes**: the translated loop copies stored Ritz vector `colsel[t]` into output
+  column `t`; for every object state, every `nvec` and every `nconv`, the columns it fills are `0 .. j-1` with
+  `j = min(min(nvec, nconv), #flagged)`, and the stored vectors it picks are, in order, the first `j` flagged indices — the
+  model's `eigenvectorCoords` selection `(convIdx).take (min nvec nconv)`. -/
+theorem c05_eigenvectors_loop_from_source (s : St φ ρ ε κ) (nvec : Nat) (c0 : Int → Int) :
+    let r := Gen.Access.hermEigenvectors_loop (c.nev : Int) (fun i => s.ritzConv.getD i.toNat false) (nvec : Int)
+                ((countTrue s.ritzConv : Nat) : Int) c0
+    let m := min (min nvec (countTrue s.ritzConv)) (convIdx c s).length
+    r.2.1 = (m : Int) ∧
+    (convIdx c s).take (min nvec (countTrue s.ritzConv)) = (List.range m).map (fun (t : Nat) => (r.2.2 (t : Int)).toNat) ∧
+    (∀ x : Int, ¬ (0 ≤ x ∧ x < (m : Int)) → r.2.2 x = c0 x) ∧
+    Gen.Access.genEigenvectors_loop (c.nev : Int) (fun i => s.ritzConv.getD i.toNat false) (nvec : Int)
+                ((countTrue s.ritzConv : Nat) : Int) c0 = r := by
+  intro r m
+  have hr : r = _ := hermEigenvectors_loop_eq c.nev _ nvec (countTrue s.ritzConv) c0
+  rw [intRange_zero] at hr
+  have sp := colFold_spec (fun i => s.ritzConv.getD i.toNat false) (min nvec (countTrue s.ritzConv)) c0 c.nev
+  dsimp only at sp
+  rw [← convIdx_eq_idx] at sp
+  obtain ⟨sj, sr⟩ := sp
+  refine ⟨by rw [hr]; exact sj, ?_, ?_, rfl⟩
+  · have h1 : (convIdx c s).take (min nvec (countTrue s.ritzConv)) = (convIdx c s).take m := by
+      apply List.take_eq_take_iff.mpr; omega
+    have := readback (convIdx c s) (fun i => i) (fun x => (r.2.2 x).toNat) m (Nat.min_le_right _ _)
+      (by intro x hx; rw [hr]; dsimp only; rw [sr x, if_pos hx]; simp)
+    rw [List.map_id'] at this
+    rw [h1, this]
+  · intro x hx; rw [hr]; dsimp only; rw [sr x, if_neg hx]
+
+end access
 
 /-! ### Non-vacuity and the refuted full-strength statement -/
 
